@@ -20,5 +20,8 @@ firstmiss = [m['id'] for m in rows if m.get('history') and ('first run exit 0' i
 out += ['', '%d of %d seeded changes are detected by the quick tier of their property. %d of them were missed by the first version of the check that met them '
         '(%s) and are caught since the check was strengthened as described in the history column; none was dropped.' % (det, n, len(firstmiss), ', '.join(firstmiss)),
         '', 'The shrunk failing case of every seed is kept under regress/<ID>/ and replayed first in every run (it passes on the unchanged tree).', '']
+note = os.path.join(VERIF, 'seeded', 'rerun_note.md')
+if os.path.exists(note):
+    out += [open(note).read().strip(), '']
 open(os.path.join(VERIF, 'seeded', 'RESULTS.md'), 'w').write('\n'.join(out))
 print(det, n, firstmiss)
